@@ -582,3 +582,230 @@ theorem heston_variance_nonneg (init kappa theta sigma dt eps psiCrit : ℝ) (z 
   cir_nonneg init kappa theta sigma dt eps psiCrit z u hinit hth hk hdt heps (Or.inl hu)
 
 end PfVerif.C11
+
+/-! ### the clamp hypothesis of `cirStep_nonneg` is necessary -/
+
+namespace PfVerif.C11Aux
+open PfVerif
+
+/-- the QE step in its exponential branch with `p < u`, in terms of `cirPsi` -/
+theorem cirStep_exp_branch (kappa theta sigma dt eps psiCrit v zi ui : ℝ)
+    (h1 : psiCrit < cirPsi kappa theta sigma dt eps v)
+    (h2 : (cirPsi kappa theta sigma dt eps v - 1) / (cirPsi kappa theta sigma dt eps v + 1) < ui) :
+    cirStep kappa theta sigma dt eps psiCrit v zi ui
+      = Real.log ((1 - (cirPsi kappa theta sigma dt eps v - 1) / (cirPsi kappa theta sigma dt eps v + 1))
+            / max (1 - ui) eps)
+          / ((1 - (cirPsi kappa theta sigma dt eps v - 1) / (cirPsi kappa theta sigma dt eps v + 1))
+            / max (theta + (v - theta) * Real.exp (-kappa * dt)) eps) := by
+  unfold cirStep
+  show (if cirPsi kappa theta sigma dt eps v ≤ psiCrit then _ else
+    if (cirPsi kappa theta sigma dt eps v - 1) / (cirPsi kappa theta sigma dt eps v + 1) < ui
+    then _ else _) = _
+  rw [if_neg (not_le.2 h1), if_pos h2]
+  rfl
+
+theorem exp_neg_one_mul_log_two : Real.exp (-1 * Real.log 2) = 1 / 2 := by
+  rw [neg_one_mul, Real.exp_neg, Real.exp_log two_pos]; norm_num
+
+end PfVerif.C11Aux
+
+namespace PfVerif.C11
+open PfVerif PfVerif.C11Aux
+
+/-- FINDING (clamp logic of `generate_cir`).  With `κ = 1`, `dt = log 2` (so `e^{-κ dt} = 1/2`),
+`θ = v = 1`, `σ = 4`: `m = 1`, `s² = 6`, `ψ = 6 > 1.5`, `p = 5/7`, `1 - p = 2/7`.  A uniform
+draw `u = 0.9 > p` and a clamp level `eps = 1/2 > 1 - p` give
+`log((2/7)/max(0.1, 0.5)) / (2/7) = (7/2)·log(4/7) < 0`: a NEGATIVE variance.  All other
+hypotheses of `cirStep_nonneg` hold, so its clamp hypothesis cannot be dropped: the clamp
+`(1 - u).clamp(min=EPSILON)` is only sound while `EPSILON ≤ 1 - p = 2/(ψ+1)`. -/
+theorem cirStep_neg_example :
+    cirStep (1 : ℝ) 1 4 (Real.log 2) (1 / 2) (3 / 2) 1 0 (9 / 10) < 0 := by
+  have hpsi : cirPsi 1 1 4 (Real.log 2) (1 / 2) 1 = 6 := by
+    unfold cirPsi; rw [exp_neg_one_mul_log_two]; norm_num
+  rw [cirStep_exp_branch _ _ _ _ _ _ _ _ _ (by rw [hpsi]; norm_num) (by rw [hpsi]; norm_num),
+    hpsi, exp_neg_one_mul_log_two]
+  refine div_neg_of_neg_of_pos (Real.log_neg (by norm_num) ?_) (by norm_num)
+  norm_num
+
+end PfVerif.C11
+
+namespace PfVerif.C11
+open PfVerif PfVerif.C11Aux
+
+/-- The same at EVERY clamp level `0 < eps < 1` (in particular `finfo.tiny`): a volatility of
+variance `σ = sqrt(16/(3 eps))` makes `ψ = 2/eps`, `1 - p = 2 eps/(2 + eps) < eps`, and the
+uniform draw `u = 1 - eps/2 ∈ (p, 1)` then produces a negative variance.  (For `eps = finfo.tiny`
+this needs `σ ≈ 10¹⁹` in float32: the real-number scheme is unsound there, the float32 code
+cannot reach it because `1 - u ≥ 2⁻²⁴`.) -/
+theorem cirStep_neg_of_large_sigma (eps : ℝ) (h0 : 0 < eps) (h1 : eps < 1) :
+    cirStep (1 : ℝ) 1 (Real.sqrt (16 / (3 * eps))) (Real.log 2) eps (3 / 2) 1 0 (1 - eps / 2) < 0 := by
+  have hpsi : cirPsi 1 1 (Real.sqrt (16 / (3 * eps))) (Real.log 2) eps 1 = 2 / eps := by
+    unfold cirPsi
+    rw [exp_neg_one_mul_log_two, Real.mul_self_sqrt (by positivity)]
+    have hmax : max ((1 + (1 - 1) * (1 / 2 : ℝ)) * (1 + (1 - 1) * (1 / 2 : ℝ))) eps = 1 := by
+      rw [max_eq_left] <;> norm_num; linarith
+    rw [hmax]; field_simp; ring
+  have hp : (2 / eps - 1) / (2 / eps + 1) = (2 - eps) / (2 + eps) := by field_simp
+  have hcrit : (3 / 2 : ℝ) < 2 / eps := by
+    rw [lt_div_iff₀ h0]; linarith
+  have hpu : (2 - eps) / (2 + eps) < 1 - eps / 2 := by
+    rw [div_lt_iff₀ (by linarith)]; nlinarith
+  rw [cirStep_exp_branch _ _ _ _ _ _ _ _ _ (by rw [hpsi]; exact hcrit) (by rw [hpsi, hp]; exact hpu),
+    hpsi, hp, exp_neg_one_mul_log_two]
+  have hq : 1 - (2 - eps) / (2 + eps) = 2 * eps / (2 + eps) := by field_simp; ring
+  have hm1 : max (1 - (1 - eps / 2)) eps = eps := by rw [max_eq_right]; linarith
+  have hm2 : max (1 + (1 - 1) * (1 / 2 : ℝ)) eps = 1 := by
+    rw [max_eq_left] <;> norm_num; linarith
+  rw [hq, hm1, hm2]
+  have hratio : 2 * eps / (2 + eps) / eps = 2 / (2 + eps) := by field_simp
+  rw [hratio]
+  refine div_neg_of_neg_of_pos (Real.log_neg (by positivity) ?_) (by positivity)
+  rw [div_lt_one (by linarith)]; linarith
+
+end PfVerif.C11
+
+namespace PfVerif.C11
+open PfVerif PfVerif.C11Aux
+
+/-- A parameter-only sufficient condition for the second clamp alternative of `cir_nonneg`:
+with `e = exp(-κ dt)`, if `σ²(1-e)/κ · √eps + θσ²(1-e)²/(2κ) + eps ≤ 2` then
+`eps (ψ(w) + 1) ≤ 2` at every state `w ≥ 0` (because `ψ(w) ≤ σ²(1-e)/(κ√eps) + θσ²(1-e)²/(2κ eps)`
+uniformly in `w`). -/
+theorem cirPsi_clamp_of_params (kappa theta sigma dt eps : ℝ) (hth : 0 ≤ theta) (hk : 0 < kappa)
+    (hdt : 0 < dt) (heps : 0 < eps)
+    (h : sigma * sigma * (1 - Real.exp (-kappa * dt)) / kappa * Real.sqrt eps
+        + theta * (sigma * sigma) * ((1 - Real.exp (-kappa * dt)) * (1 - Real.exp (-kappa * dt)))
+          / (2 * kappa) + eps ≤ 2) :
+    ∀ w, 0 ≤ w → eps * (cirPsi kappa theta sigma dt eps w + 1) ≤ 2 := by
+  intro w hw
+  have he0 : 0 < Real.exp (-kappa * dt) := Real.exp_pos _
+  have he1 : Real.exp (-kappa * dt) ≤ 1 := by
+    rw [Real.exp_le_one_iff]; nlinarith [mul_pos hk hdt]
+  have hm := cir_m_nonneg kappa theta dt w hw hth hk hdt
+  unfold cirPsi
+  generalize Real.exp (-kappa * dt) = e at *
+  have h1e : 0 ≤ 1 - e := sub_nonneg.2 he1
+  set m := theta + (w - theta) * e with hmdef
+  set A := sigma * sigma * (1 - e) / kappa with hA
+  set B := theta * (sigma * sigma) * ((1 - e) * (1 - e)) / (2 * kappa) with hB
+  set r := Real.sqrt eps with hr
+  have hA0 : 0 ≤ A := div_nonneg (mul_nonneg (mul_self_nonneg _) h1e) hk.le
+  have hB0 : 0 ≤ B :=
+    div_nonneg (mul_nonneg (mul_nonneg hth (mul_self_nonneg _)) (mul_self_nonneg _)) (by positivity)
+  have hr0 : 0 < r := Real.sqrt_pos.2 heps
+  have hrr : r * r = eps := Real.mul_self_sqrt heps.le
+  have hM1 : eps ≤ max (m * m) eps := le_max_right _ _
+  have hM2 : m * m ≤ max (m * m) eps := le_max_left _ _
+  have hM0 : 0 < max (m * m) eps := lt_of_lt_of_le heps hM1
+  have hs2 : w * (sigma * sigma) * e * (1 - e) / kappa = A * (w * e) := by
+    rw [hA]; field_simp
+  have hwe : w * e ≤ m := by
+    rw [hmdef]; nlinarith [mul_nonneg hth h1e]
+  have hrm : r * m ≤ max (m * m) eps := by
+    rcases le_total m r with hc | hc
+    · calc r * m ≤ r * r := mul_le_mul_of_nonneg_left hc hr0.le
+        _ = eps := hrr
+        _ ≤ _ := hM1
+    · calc r * m ≤ m * m := mul_le_mul_of_nonneg_right hc hm
+        _ ≤ _ := hM2
+  have hkey : eps * (A * (w * e) + B) ≤ (A * r + B) * max (m * m) eps := by
+    have h1 : eps * (A * (w * e)) ≤ A * r * max (m * m) eps := by
+      calc eps * (A * (w * e)) ≤ eps * (A * m) :=
+            mul_le_mul_of_nonneg_left (mul_le_mul_of_nonneg_left hwe hA0) heps.le
+        _ = A * r * (r * m) := by rw [← hrr]; ring
+        _ ≤ A * r * max (m * m) eps :=
+            mul_le_mul_of_nonneg_left hrm (mul_nonneg hA0 hr0.le)
+    have h2 : eps * B ≤ B * max (m * m) eps := by
+      rw [mul_comm]; exact mul_le_mul_of_nonneg_left hM1 hB0
+    linarith
+  rw [hs2]
+  have : eps * ((A * (w * e) + B) / max (m * m) eps + 1)
+      = eps * (A * (w * e) + B) / max (m * m) eps + eps := by ring
+  rw [this]
+  have : eps * (A * (w * e) + B) / max (m * m) eps ≤ A * r + B := by
+    rw [div_le_iff₀ hM0]; exact hkey
+  linarith
+
+end PfVerif.C11
+
+namespace PfVerif.C11
+open PfVerif PfVerif.C11Aux
+
+/-- the hypothesis `2α + 1 ≠ 0` of `roughBergomi_variance_head` is necessary: at `α = -1/2`
+`Real.rpow` gives `0 ^ 0 = 1` and the variance series starts at `v0 · exp(-η²/2)`, not `v0` -/
+theorem roughBergomi_variance_head_at_neg_half (s0 v0 rho eta dt norm : ℝ) (n : ℕ)
+    (w1 : List (ℝ × ℝ)) (w2 : List ℝ) (hn : 1 ≤ n) :
+    (roughBergomi s0 v0 (-1 / 2) rho eta dt norm n w1 w2).2.head?
+      = some (v0 * Real.exp (-(1 / 2) * (eta * eta))) := by
+  obtain ⟨k, rfl⟩ : ∃ k, n = k + 1 := ⟨n - 1, by omega⟩
+  simp only [roughBergomi, arangeL_succ, List.range_succ_eq_map, List.map_cons,
+    List.zipWith_cons_cons, List.head?_cons]
+  have h0 : (2 * (-1 / 2) + 1 : ℝ) = 0 := by norm_num
+  simp [Transc.exp, Transc.sqrt, TranscPow.pow, sumL, h0]
+
+/-! ### volatility = square root of the (clamped) variance -/
+
+/-- Heston / rough Bergomi instruments: `volatility = sqrt(clamp(variance, min=0))` squares back
+to the clamped variance … -/
+theorem volatility_sq (v : ℝ) : Real.sqrt (max v 0) ^ 2 = max v 0 :=
+  Real.sq_sqrt (le_max_right _ _)
+
+/-- … which is the variance itself whenever that is non-negative (`cir_nonneg`,
+`roughBergomi_variance_pos`) -/
+theorem volatility_sq_of_nonneg (v : ℝ) (h : 0 ≤ v) : Real.sqrt (max v 0) ^ 2 = v := by
+  rw [volatility_sq, max_eq_left h]
+
+theorem volatility_eq_sqrt_variance (v : ℝ) (h : 0 ≤ v) : Real.sqrt (max v 0) = Real.sqrt v := by
+  rw [max_eq_left h]
+
+/-- for a negative (invalid) variance the clamp makes the volatility `0` -/
+theorem volatility_of_neg (v : ℝ) (h : v ≤ 0) : Real.sqrt (max v 0) = 0 := by
+  rw [max_eq_right h, Real.sqrt_zero]
+
+/-- constant-volatility instruments: `variance = σ²` and `sqrt(σ²) = σ` for `σ ≥ 0` -/
+theorem const_volatility (sigma : ℝ) (h : 0 ≤ sigma) : Real.sqrt (sigma ^ 2) = sigma :=
+  Real.sqrt_sq h
+
+/-! ### non-vacuity -/
+
+example : cumsumL [(1 : ℝ), 2, 3] = [1, 3, 6] ∧ cumprodL [(1 : ℝ), 2, 3] = [1, 2, 6] := by
+  constructor <;> norm_num [cumsumL, cumsumL.go, cumprodL, cumprodL.go]
+
+/-- a 3-step Brownian path, `dt = 1/4`: `[init, ¾·1 + 2·(½·1) + 1, ¾·2 + 2·(½·0) + 1]` -/
+example : brownian (1 : ℝ) 2 3 (1 / 4) [5, 1, -1] = [1, 11 / 4, 5 / 2] := by
+  have hs : Real.sqrt (1 / 4) = 1 / 2 := by
+    rw [show (1 / 4 : ℝ) = (1 / 2) ^ 2 by norm_num]; exact Real.sqrt_sq (by norm_num)
+  simp only [brownian, arangeL, cumsumL, cumsumL.go, zeroFirst, List.length_cons, List.length_nil,
+    List.range_succ_eq_map, List.range_zero, List.map_cons, List.map_nil, List.zipWith_cons_cons,
+    List.zipWith_nil_right, Transc.sqrt, hs]
+  norm_num
+
+/-- a 3-step geometric Brownian path has 3 positive entries starting at `init` -/
+example (sigma mu dt a b c : ℝ) :
+    (geometricBrownian 2 sigma mu dt [a, b, c]).length = 3 ∧
+    (geometricBrownian 2 sigma mu dt [a, b, c]).head? = some 2 ∧
+    ∀ x ∈ geometricBrownian 2 sigma mu dt [a, b, c], 0 < x :=
+  ⟨geometricBrownian_length .., gbm_head _ _ _ _ _ (by simp), gbm_pos _ _ _ _ _ (by norm_num)⟩
+
+/-- the hypotheses of `cir_nonneg` are satisfiable: default parameters of `generate_cir`
+(`κ = 1`, `θ = 0.04`, `σ = 2`, `dt = 1/250`, `PSI_CRIT = 1.5`), a tiny `eps`, three draws -/
+example : (cir (0.04 : ℝ) 1 0.04 2 (1 / 250) (1 / 10 ^ 38) 1.5 [0.3, -0.2, 0] [0.5, 0.2, 0]).length = 3 ∧
+    ∀ v ∈ cir (0.04 : ℝ) 1 0.04 2 (1 / 250) (1 / 10 ^ 38) 1.5 [0.3, -0.2, 0] [0.5, 0.2, 0], 0 ≤ v := by
+  refine ⟨cir_length _ _ _ _ _ _ _ _ _ (by simp), ?_⟩
+  refine cir_nonneg _ _ _ _ _ _ _ _ _ (by norm_num) (by norm_num) (by norm_num) (by norm_num)
+    (by norm_num) (Or.inl ?_)
+  intro ui hu
+  simp only [List.mem_cons, List.not_mem_nil, or_false] at hu
+  rcases hu with rfl | rfl | rfl <;> norm_num
+
+/-- Merton / Kou with draws for the steps `1, 2` of a 3-step path -/
+example (init mu sigma lam jm js dt : ℝ) :
+    (mertonJump init mu sigma lam jm js dt [1, 0] [0.3, -0.1] [0, 0.5, -0.5]).length = 3 :=
+  mertonJump_length _ _ _ _ _ _ _ _ _ _ (by simp) (by simp)
+
+example (sigma mu lam etaUp etaDown pUp dt : ℝ) :
+    (kouJump 1 sigma mu lam etaUp etaDown pUp dt [[0.1, -0.2], []] [0, 0.5, -0.5]).length = 3 ∧
+    ∀ x ∈ kouJump 1 sigma mu lam etaUp etaDown pUp dt [[0.1, -0.2], []] [0, 0.5, -0.5], 0 < x :=
+  ⟨kouJump_length _ _ _ _ _ _ _ _ _ _ (by simp), kou_pos _ _ _ _ _ _ _ _ _ _ one_pos⟩
+
+end PfVerif.C11
